@@ -41,10 +41,11 @@ func init() {
 		fs.pin("nextFld", ": Fld", ".next", "`Next`: `return r.next` (pinned only)")
 		fs.pin("prevFld", ": Fld", ".prev", "`Prev`: `return r.prev` (pinned only)")
 		fs.pin("atNeg", "(n : Int) : Bool", "decide (n < 0)", "`At`: `if n < 0`")
-		fs.pin("atNegated", "(n : Int) : Int", "(-n)", "`At`: `n = -n`")
+		fs.pin("atStepFwd", ": Int", "1", "`At`: `next, step := (*Ring[T]).Next, 1` — the amount `n` moves toward zero per step")
+		fs.pin("atStepBack", ": Int", "(-1)", "`At`: `next, step = (*Ring[T]).Prev, -1` for a negative offset")
 		fs.pin("atFwd", ": Fld", ".next", "`At`: `next := (*Ring[T]).Next` — the field that method returns")
 		fs.pin("atBack", ": Fld", ".prev", "`At`: `next = (*Ring[T]).Prev` for a negative offset — the field that method returns")
-		fs.pin("atGoes", "(n : Int) : Bool", "decide (n > 0)", "`At`: `for n > 0 { …; n-- }` (pinned only: the model recurses on `n`)")
+		fs.pin("atGoes", "(n : Int) : Bool", "decide (n ≠ 0)", "`At`: `for n != 0 { …; n -= step }` (pinned only: the model recurses on `n / step`)")
 		fs.pin("scanWrapFld", ": Fld", ".next", "`scan`: `if cur.next == r { return }` (pinned only)")
 		fs.pin("scanStepFld", ": Fld", ".next", "`scan`: `cur = cur.next` (pinned only)")
 
@@ -261,33 +262,34 @@ func init() {
 					}
 					return name
 				}
-				if e := DefineOf(b[1], "next"); e != nil && x.Src(b[1]) == "next := "+x.Src(e) {
-					if m := method("default step", e); m != "" {
-						fs.set("atFwd", methodFld[m], "`At`: "+q(b[1])+" — the field `"+m+"` returns")
+				// `next, step := (*Ring[T]).Next, 1`
+				pair := func(where string, st ast.Stmt, tok string) (string, string, bool) {
+					as, ok := st.(*ast.AssignStmt)
+					if !ok || len(as.Lhs) != 2 || len(as.Rhs) != 2 || x.Src(as.Lhs[0]) != "next" || x.Src(as.Lhs[1]) != "step" || as.Tok.String() != tok {
+						x.fail("At (%s): not `next, step %s <method>, <int>`: %s", where, tok, x.Src(st))
+						return "", "", false
 					}
-				} else {
-					x.fail("At: no `next := …`")
+					m := method(where, as.Rhs[0])
+					return m, x.IntExpr(as.Rhs[1], NV, true), m != ""
+				}
+				if m, st, ok := pair("default step", b[1], ":="); ok {
+					fs.set("atFwd", methodFld[m], "`At`: "+q(b[1])+" — the field `"+m+"` returns")
+					fs.set("atStepFwd", st, "`At`: "+q(b[1])+" — the amount `n` moves toward zero per step")
 				}
 				g := plainIf("At (sign)", b[2])
 				fs.set("atNeg", x.CondExpr(g.Cond, NV, true), "`At`: `if "+x.Src(g.Cond)+"`")
-				if x.wantStmts("At (negative offset)", g.Body.List, "*", "*") {
-					if s, ok := x.assignBody(g.Body.List[0], "n", NV, true); ok {
-						fs.set("atNegated", s, "`At`: "+q(g.Body.List[0]))
-					}
-					if e := DefineOf(g.Body.List[1], "next"); e != nil && x.Src(g.Body.List[1]) == "next = "+x.Src(e) {
-						if m := method("negative offset", e); m != "" {
-							fs.set("atBack", methodFld[m], "`At`: "+q(g.Body.List[1])+" for a negative offset — the field `"+m+"` returns")
-						}
-					} else {
-						x.fail("At: no `next = …` for a negative offset")
+				if x.wantStmts("At (negative offset)", g.Body.List, "*") {
+					if m, st, ok := pair("negative offset", g.Body.List[0], "="); ok {
+						fs.set("atBack", methodFld[m], "`At`: "+q(g.Body.List[0])+" for a negative offset — the field `"+m+"` returns")
+						fs.set("atStepBack", st, "`At`: "+q(g.Body.List[0])+" for a negative offset")
 					}
 				}
 				loop := b[4].(*ast.ForStmt)
 				if loop.Init != nil || loop.Post != nil || loop.Cond == nil {
 					x.fail("At: the loop is not `for <cond>`")
 				} else {
-					fs.set("atGoes", x.CondExpr(loop.Cond, NV, true), "`At`: `for "+x.Src(loop.Cond)+" { …; n-- }` (pinned only: the model recurses on `n`)")
-					x.wantStmts("At (loop)", loop.Body.List, "cur = next(cur)", "if cur == r { return nil }", "n--")
+					fs.set("atGoes", x.CondExpr(loop.Cond, NV, true), "`At`: `for "+x.Src(loop.Cond)+" { …; n -= step }` (pinned only: the model recurses on `n / step`)")
+					x.wantStmts("At (loop)", loop.Body.List, "cur = next(cur)", "if cur == r { return nil }", "n -= step")
 				}
 			}
 		}
